@@ -101,6 +101,14 @@
 (*                    is rendered before AssignIDs, so unnamed parameters  *)
 (*                    show the ids of the previous print: the first print  *)
 (*                    of (i32, i32) reads (i32 %0, i32 %0) (vacuity guard). *)
+(*   GlobalRefresh    when Global.Type() / Func.Type() recompute the cached *)
+(*                    Typ: "fields" = whenever AddrSpace or ContentType no *)
+(*                    longer match (required: what is shown does not       *)
+(*                    depend on when Type() was called last); "addrspace"  *)
+(*                    = only when AddrSpace differs (as implemented since  *)
+(*                    1644016: set AddrSpace, print, set ContentType,      *)
+(*                    print shows the old content type -- fails);          *)
+(*                    "never" = computed once (the pinned tree: holds).    *)
 (*   AllocaRefresh    when InstAlloca.Type() recomputes its cached Typ:    *)
 (*                    "fields" = whenever AddrSpace or ElemType no longer  *)
 (*                    match (required: the type follows the fields, no     *)
@@ -156,6 +164,7 @@ CONSTANTS ValidateOnPrint,   \* TRUE = pinned tree, FALSE = as required
           MdVariant,         \* "code" | "one-pass"
           HeaderBeforeAssign,\* FALSE = the code: Func.LLString numbers the locals, then renders the header;
                              \* TRUE = the header (name, parameters) is rendered before AssignIDs
+          GlobalRefresh,     \* "fields" | "addrspace" | "never": when Global.Type() / Func.Type() recompute Typ
           AllocaRefresh,     \* "fields" | "addrspace" | "never": when InstAlloca.Type() recomputes Typ
           MaxCalls,          \* bound on Len(hist); 0 = unbounded (structure bounds only)
           Groups,            \* groups NewGlobal may append to: subset of {"globals","aliases","ifuncs"}
@@ -203,8 +212,12 @@ GEnt(nm) == [name |-> nm, id |-> 0, res |-> "value", as |-> 0, ct |-> 0, va |-> 
 IInst(nm, r, op, ref) == [name |-> nm, id |-> 0, res |-> r, op |-> op, ref |-> ref,
                           as |-> 0, ct |-> 0, tc |-> IF op = "alloca" THEN NewTC ELSE NoTC, att |-> 0]
 
-\* Global.Type / Func.Type: computed once
-FillG(e) == IF e.tc.set THEN e ELSE [e EXCEPT !.tc = TC(e.as, e.ct)]
+\* Global.Type / Func.Type: computed once, and again when the cached type no longer matches the
+\* fields ("addrspace": the AddrSpace only, as commit 1644016 wrote it; "never": the pinned tree)
+GlobalStale(e) == CASE GlobalRefresh = "fields"    -> e.tc.as # e.as \/ e.tc.ct # e.ct
+                    [] GlobalRefresh = "addrspace" -> e.tc.as # e.as
+                    [] OTHER                       -> FALSE
+FillG(e) == IF ~e.tc.set \/ GlobalStale(e) THEN [e EXCEPT !.tc = TC(e.as, e.ct)] ELSE e
 \* InstAlloca.Type: computed once, and again when the cached type no longer matches the fields
 \* ("addrspace": the AddrSpace only, as commit 141f39c wrote it)
 AllocaStale(i) == CASE AllocaRefresh = "fields"    -> i.tc.as # i.as \/ i.tc.ct # i.ct
